@@ -1375,5 +1375,11 @@ def main(argv):
     except Inconclusive as e:
         print("INCONCLUSIVE property=%s: %s" % (a.pid, e))
         return 2
+    except Exception:
+        # a defect of the machinery itself is never a verdict about the code
+        import traceback
+        traceback.print_exc()
+        print("INCONCLUSIVE property=%s: internal error of the checker" % a.pid)
+        return 2
     finally:
         ctx.cleanup()
